@@ -379,7 +379,9 @@ def run_check(prop, tier, seed, replay=None, nshards=NSHARDS):
             new_violations=[dict(signature=v['signature'], count=v['count'], replay=v['replay']) for v in new_violations],
             harness_status=status,
         )
-        edir = os.path.join(HOME, 'evidence')
+        # evidence describes runs against /repo itself; a run against a scratch copy (seeded change, mutant) must not overwrite it
+        edir = os.environ.get('VERIF_EVIDENCE_DIR') or (os.path.join(HOME, 'evidence') if os.path.realpath(REPO) == '/repo'
+                                                        else os.path.join(tempfile.gettempdir(), 'vf-evidence-scratch'))
         os.makedirs(edir, exist_ok=True)
         tmp = os.path.join(edir, f'.{prop}.json.tmp')
         with open(tmp, 'w') as f:
